@@ -21,6 +21,43 @@ pub struct Unit {
     /// vector within one edit operation of a sentence
     #[serde(default)]
     pub sent: usize,
+    /// valued items are u32: the value `v` of the alphabet is written `7`, `w` stays invalid
+    #[serde(default)]
+    pub typed: bool,
+}
+
+/// every valued named item converts to u32
+fn typed_u32(ls: Vec<Level>) -> Vec<Level> {
+    fn set(l: &mut Level) {
+        for n in l.named.iter_mut() {
+            if n.kind.is_arg() {
+                n.ty = Ty::U32;
+            }
+        }
+        if let Tail::Cmds { cmds, .. } = &mut l.tail {
+            for c in cmds {
+                set(&mut c.level);
+            }
+        }
+    }
+    ls.into_iter()
+        .map(|mut l| {
+            set(&mut l);
+            l
+        })
+        .collect()
+}
+
+/// `v` -> `7` wherever it is a whole word or an attached value
+fn numeric_alphabet(alpha: Vec<Tok>) -> Vec<Tok> {
+    alpha
+        .into_iter()
+        .map(|t| match t.utf8() {
+            Some("v") => Tok::s("7"),
+            Some(s) if s.ends_with("=v") => Tok::s(&format!("{}7", &s[..s.len() - 1])),
+            _ => t,
+        })
+        .collect()
 }
 
 pub fn sig_level(l: &Level) -> String {
@@ -105,7 +142,7 @@ impl Check for C01 {
         macro_rules! push {
             ($levels:expr, $len:expr, $full:expr) => {
                 for l in $levels {
-                    out.push(serde_json::to_value(Unit { level: l, len: $len, full_alpha: $full, sent: 0 }).unwrap());
+                    out.push(serde_json::to_value(Unit { level: l, len: $len, full_alpha: $full, sent: 0, typed: false }).unwrap());
                 }
             };
         }
@@ -122,10 +159,18 @@ impl Check for C01 {
                 push!(fam::conventional(1, &fam::cmd_tails(seed, true, true), seed + 1), 3, true);
                 // fallback_to_usage on every level: only a line without any item may print usage
                 push!(with_usage_fallback(fam::conventional(2, &t2, seed + 2)).into_iter().step_by(5).collect::<Vec<_>>(), 3, false);
+                // typed values: every valued item converts to u32, the alphabet has one valid
+                // and one invalid value
+                for l in typed_u32(fam::conventional(1, &t2, seed + 5)) {
+                    out.push(serde_json::to_value(Unit { level: l, len: 4, full_alpha: false, sent: 0, typed: true }).unwrap());
+                }
+                for l in typed_u32(fam::conventional(2, &[Tail::None, fam::pos(&[PosKind::Opt])], seed + 5)) {
+                    out.push(serde_json::to_value(Unit { level: l, len: 4, full_alpha: false, sent: 0, typed: true }).unwrap());
+                }
                 // long vectors: every sentence the grammar generates (all definitions) and every
                 // vector within one edit operation of a sentence (every fourth definition)
                 for (i, l) in fam::conventional(2, &t2, seed + 3).into_iter().enumerate() {
-                    out.push(serde_json::to_value(Unit { level: l, len: 3, full_alpha: false, sent: if i % 4 == 0 { 2 } else { 1 } }).unwrap());
+                    out.push(serde_json::to_value(Unit { level: l, len: 3, full_alpha: false, sent: if i % 4 == 0 { 2 } else { 1 }, typed: false }).unwrap());
                 }
             }
             Tier::Thorough => {
@@ -137,11 +182,17 @@ impl Check for C01 {
                 let small = vec![Tail::None, fam::pos(&[PosKind::Opt]), fam::pos(&[PosKind::Req, PosKind::Many]), fam::cmd_tails(seed, false, false)[1].clone()];
                 push!(fam::conventional(3, &small, seed + 3), 3, false);
                 push!(with_usage_fallback(fam::conventional(2, &t2, seed + 2)), 3, false);
+                for l in typed_u32(fam::conventional(1, &t2, seed + 5)) {
+                    out.push(serde_json::to_value(Unit { level: l, len: 5, full_alpha: false, sent: 0, typed: true }).unwrap());
+                }
+                for l in typed_u32(fam::conventional(2, &t2, seed + 5)) {
+                    out.push(serde_json::to_value(Unit { level: l, len: 4, full_alpha: false, sent: 0, typed: true }).unwrap());
+                }
                 for l in fam::conventional(2, &t2, seed + 3) {
-                    out.push(serde_json::to_value(Unit { level: l, len: 3, full_alpha: false, sent: 2 }).unwrap());
+                    out.push(serde_json::to_value(Unit { level: l, len: 3, full_alpha: false, sent: 2, typed: false }).unwrap());
                 }
                 for (i, l) in fam::conventional(3, &small, seed + 4).into_iter().enumerate() {
-                    out.push(serde_json::to_value(Unit { level: l, len: 3, full_alpha: false, sent: if i % 3 == 0 { 2 } else { 1 } }).unwrap());
+                    out.push(serde_json::to_value(Unit { level: l, len: 3, full_alpha: false, sent: if i % 3 == 0 { 2 } else { 1 }, typed: false }).unwrap());
                 }
             }
         }
@@ -157,7 +208,10 @@ impl Check for C01 {
             }
         };
         let model = Model::new(&u.level);
-        let alpha = alphabet(&u.level, if u.full_alpha { AlphaStyle::Full } else { AlphaStyle::Compact });
+        let mut alpha = alphabet(&u.level, if u.full_alpha { AlphaStyle::Full } else { AlphaStyle::Compact });
+        if u.typed {
+            alpha = numeric_alphabet(alpha);
+        }
         let env = Env::new();
         if u.sent > 0 {
             // sentences and their one-edit neighbourhood; vectors short enough for the token
@@ -212,12 +266,12 @@ impl Check for C01 {
         judge("C01", &u.level, unit, &model, &p, &argv, &Env::new(), ctx);
     }
     fn rule(&self) -> String {
-        "every definition of the conventional family (all ordered tuples of item kinds x tails, naming styles rotated by seed) x every vector of the token tree Sigma^{<=L} (Sigma = every declared spelling, inline forms, words, `--`, unknown names, command names); a state is a (definition, vector) node, a transition appends one token; plus, for long vectors, every sentence the grammar generates (all legal occurrence counts, spellings cycled, declaration and reverse order, words after / before the named items and behind `--`, every command and alias recursively) and every vector within ONE edit operation of a sentence (insert or replace by any token of Sigma at any position, delete, duplicate, swap neighbours); each node is judged by the reference scanner (accept+value / reject) against run_inner; non-trivial = node judged by the model (not in the unspecified region) and not the empty vector when rejected; nodes are distinct by construction (a tree has no converging paths)".into()
+        "every definition of the conventional family (all ordered tuples of item kinds x tails, naming styles rotated by seed) x every vector of the token tree Sigma^{<=L} (Sigma = every declared spelling, inline forms, words, `--`, unknown names, command names); a state is a (definition, vector) node, a transition appends one token; plus, for long vectors, every sentence the grammar generates (all legal occurrence counts, spellings cycled, declaration and reverse order, words after / before the named items and behind `--`, every command and alias recursively) and every vector within ONE edit operation of a sentence (insert or replace by any token of Sigma at any position, delete, duplicate, swap neighbours); a typed sub-family converts every valued item to u32 over an alphabet with one valid (7) and one invalid (w) value; each node is judged by the reference scanner (accept+value / reject) against run_inner; non-trivial = node judged by the model (not in the unspecified region) and not the empty vector when rejected; nodes are distinct by construction (a tree has no converging paths)".into()
     }
     fn bounds(&self, tier: Tier) -> Value {
         match tier {
-            Tier::Quick => json!({"named_items_per_level": "<=2 (all 10 kinds, ordered)", "tails": "none, 7 positional suffixes, command tails incl. depth 3, aliases, optional/fallback choice", "vector_length": "3 (compact alphabet), 4 (<=1 item, full alphabet, no commands), 3 (<=1 item, full alphabet, commands; fallback_to_usage sample)"}),
-            Tier::Thorough => json!({"named_items_per_level": "<=3", "vector_length": "4 (<=2 items), 5 (<=1 item, full alphabet), 3 (3 items)"}),
+            Tier::Quick => json!({"named_items_per_level": "<=2 (all 10 kinds, ordered)", "tails": "none, 7 positional suffixes, command tails incl. depth 3, aliases, optional/fallback choice", "vector_length": "3 (compact alphabet), 4 (<=1 item, full alphabet, no commands), 3 (<=1 item, full alphabet, commands; fallback_to_usage sample), 4 (u32-typed values: <=1 item all tails, <=2 items without / with one optional positional)", "sentences": "all; one-edit neighbourhood for every 4th definition"}),
+            Tier::Thorough => json!({"named_items_per_level": "<=3", "vector_length": "4 (<=2 items), 5 (<=1 item, full alphabet), 3 (3 items), u32-typed values: 5 (<=1 item), 4 (<=2 items)", "sentences": "all with their one-edit neighbourhood (<=2 items); every third definition with 3 items"}),
         }
     }
     fn assumptions(&self) -> Vec<String> {
